@@ -84,6 +84,8 @@ def c06(ctx):
     ctx.assumptions += TRUST
     ctx.assumptions.append("Apalache 0.58 + Z3 for the unbounded-n lemmas (typed twin of Sem!Allot generated per portion vector)")
     ctx.tlc_mc("AllotMC", "AllotMC_%s.cfg" % ctx.tier, label="C06_Sem: all portion vectors over small denominators x totals (design level)")
+    if ctx.tier == "thorough":
+        ctx.tlc_mc("AllotMC", "AllotMC_len4.cfg", label="C06_Sem: vectors of length 4 over denominators up to 5")
     vecs = [([1, 2, 4], 7), ([1, 1], 2)] if ctx.tier == "quick" else \
         [([1, 2, 4], 7), ([1, 1], 2), ([1, 1, 1], 3), ([15, 30, 55], 100), ([1, 999], 1000), ([0, 5, 0, 7], 12), ([3, 3, 3, 3, 4], 16), ([1, 59], 60)]
     sem.allot_apalache(ctx, vecs)
